@@ -2,6 +2,7 @@ package analysis
 
 import (
 	"fmt"
+	"net/url"
 	"path"
 	"sort"
 	"strings"
@@ -61,7 +62,13 @@ func (isn *InlineSchemaNamer) Name(key string, schema *spec.Schema, aschema *Ana
 				isn.opts.flattenContext.warnings = append(isn.opts.flattenContext.warnings, r.Warnings...)
 			}
 
-			if r.Ref.String() != key && (r.Ref.String() != path.Join(definitionsPath, newName) || path.Dir(v.String()) == definitionsPath) {
+			// keys are JSON pointers: $ref strings are URL-escaped
+			target, eru := url.PathUnescape(r.Ref.String())
+			if eru != nil {
+				return ErrAtKey(k, eru)
+			}
+
+			if target != key && (target != path.Join(definitionsPath, newName) || path.Dir(v.String()) == definitionsPath) {
 				continue
 			}
 
